@@ -61,6 +61,9 @@ func (fg *FuncGen) exec(in ssa.Instruction) {
 		v := fg.term(x.Val)
 		el := x.Addr.Type().Underlying().(*types.Pointer).Elem()
 		if av.Loc != nil {
+			if av.Loc.Kind == lGlobal && len(av.Loc.Path) == 0 && av.Loc.Global != nil && fg.g.cs.GlobalNonNil[av.Loc.Global.Pkg.Pkg.Path()+"."+av.Loc.Global.Name()] {
+				fg.oblige("typeinv", "global "+av.Loc.Global.Name()+" is never nil: "+fg.g.srcText(x.Pos(), "any"), fg.nonNilTerm(v, el), nil, "typeinv")
+			}
 			fg.storeLoc(st, av.Loc, v)
 			if av.Loc.Kind == lField && av.Loc.Struct != nil {
 				fg.fieldStored(av.Loc.Struct, av.Loc.Ref, av.Loc.Field, false, x.Pos())
@@ -305,6 +308,12 @@ func (fg *FuncGen) execUnOp(x *ssa.UnOp) {
 		t = fg.named("ld_"+x.Name(), e.sortOf(el), t)
 		if av.Loc == nil || av.Loc.Kind != lLocal {
 			fg.typeFacts(t, el)
+		}
+		if av.Loc != nil && av.Loc.Kind == lGlobal && len(av.Loc.Path) == 0 && av.Loc.Global != nil {
+			if fg.g.cs.GlobalNonNil[av.Loc.Global.Pkg.Pkg.Path()+"."+av.Loc.Global.Name()] {
+				fg.assume(fg.nonNilTerm(t, el))
+				fg.note("global invariant assumed: %s is never nil", av.Loc.Global.Name())
+			}
 		}
 		fg.vals[x] = Val{T: t, Typ: x.Type()}
 	case token.NOT:
